@@ -721,6 +721,43 @@ def coq_str(s):
     return '"' + s.replace('"', '""') + '"'
 
 
+def _strip_docstrings(node):
+    for n in ast.walk(node):
+        if isinstance(n, (ast.FunctionDef, ast.Module)) and n.body and \
+                isinstance(n.body[0], ast.Expr) and isinstance(n.body[0].value, ast.Constant) and \
+                isinstance(n.body[0].value.value, str):
+            n.body = n.body[1:] or [ast.Pass()]
+    return node
+
+
+NARROWING = ('int32', 'int16', 'uint32', 'float32', 'float16', 'intc', 'indices.dtype',
+             'indptr.dtype', 'astype')
+
+
+def check_align_nnz_body(repo):
+    """align_nnz is a HAND model (Model.align_nnz).  Its tie to the source is an
+    exact-body match: the function must be, up to comments/docstrings/layout, the
+    text the model was written from (translate/c17_align_nnz_expected.txt).
+    Returns (ok, message, sha256 of the current source region)."""
+    src = (Path(repo) / 'femio' / 'functions.py').read_text()
+    fns = [n for n in ast.parse(src).body if isinstance(n, ast.FunctionDef) and n.name == 'align_nnz']
+    if len(fns) != 1:
+        return False, 'functions.align_nnz not found exactly once', ''
+    seg = ast.get_source_segment(src, fns[0])
+    sha = hashlib.sha256(seg.encode()).hexdigest()
+    want = (Path(__file__).resolve().parent / 'c17_align_nnz_expected.txt').read_text()
+    a = ast.dump(_strip_docstrings(ast.parse(seg)))
+    b = ast.dump(_strip_docstrings(ast.parse(want)))
+    if a == b:
+        return True, '', sha
+    # point at dtype-narrowing idioms (flat keys / positions must stay 64 bit)
+    hits = sorted({w for w in NARROWING if w in seg and w not in want})
+    msg = 'align_nnz differs from the text the placement model was written from'
+    if hits:
+        msg += '; dtype-narrowing idioms that the model does not have: ' + ', '.join(hits)
+    return False, msg, sha
+
+
 def translate(repo):
     repo = Path(repo)
     src_f = (repo / 'femio' / 'functions.py').read_text()
